@@ -68,9 +68,17 @@ class DataFrame(Entity, DataSet):
             new_da.append(row_tuple)
         farr = np.ascontiguousarray(new_da, dtype=dt)
         nrows = self.shape[0]
-        del self._h5group.group['data']
-        self._h5group.create_dataset("data", (nrows,), dt)
-        self.write_direct(farr)
+        # build the new dataset first: a column HDF5 cannot store must not cost the frame its data
+        grp = self._h5group.group
+        try:
+            newds = self._h5group.create_dataset("data.new", (nrows,), dt)
+            newds.write_data(farr)
+        except Exception:
+            if "data.new" in grp:
+                del grp["data.new"]
+            raise
+        del grp['data']
+        grp.move("data.new", "data")
 
     def append_rows(self, data):
         """
